@@ -243,6 +243,10 @@ def model_value(model, v, heap, memo=None):
 
 
 def eval_term(model, t, kind):
+    from .values import ext_kind
+
+    if ext_kind(kind) is not None:
+        return ext_kind(kind).eval_term(model, t, kind, eval_term)
     if isinstance(kind, tuple) and kind[0] == 'opq':
         r = model.eval(t, model_completion=True)
         # an opaque object identity: rebuilt natively as a unique (truthy, hashable) token per id
